@@ -10,8 +10,8 @@ package main
 //   purity           the same (bytes, name) requests repeated in other orders in ONE loader
 //                    process (answers must be identical; lines are `c13 load`, so the pure
 //                    model is compared as well) and an in-process aliasing test
-//   kd-wrap          descriptor symbols whose offset from .rodata is within 64 of 2^64
-//                    (correspondence only; see theorem named_load_faults_exactly)
+//   kd-wrap          descriptor symbols whose offset from .rodata is within 64 of 2^64: must be
+//                    ignored, not panic (oracle C13.kd.out-of-range-panic; repaired defect)
 
 import (
 	"bufio"
@@ -436,6 +436,13 @@ func (e *c13env) deepKdWrap(rng *Rng, n int) {
 		res, ok := e.loadCase("deep.kd-wrap", c13writeELF(o), "", "k")
 		if ok {
 			e.r.Count("deep.kd-wrap." + strings.SplitN(res, " ", 2)[0])
+			// a descriptor symbol outside .rodata is ignored like any other out-of-range one:
+			// the kernel loads as raw code, the loader does not panic
+			e.r.Checked("kd-out-of-range")
+			if !strings.HasPrefix(res, "ok v=5 ") || c13field(res, "data") == "" {
+				e.r.Failf("C13.kd.out-of-range-panic", fmt.Sprintf(".rodata addr=%x len=%d ; k.kd value=%x size=64", roAddr, len(ro), roAddr-below),
+					"descriptor symbol %d bytes below .rodata (uint64 offset %x): loader answered %s", below, roAddr-below-roAddr, res)
+			}
 		}
 	}
 }
